@@ -12,6 +12,8 @@ name, in append order; `r.Topics` is that map listed by ascending name; each par
 (Partition, Offset) — Go's sort.Slice is not stable, so the order inside a (Partition, Offset) tie is
 unspecified; the model uses a stable sort and comparisons canonicalise.
 -/
+import KafkaVerif.Gen.Offsets
+
 namespace KV.ListOffsets
 
 structure ReqPart where
@@ -54,7 +56,9 @@ def split (r : Request) : List Request :=
   (flat r).map fun (t, p) => { replicaID := r.replicaID, isolation := r.isolation, topics := [(t, [p])] }
 
 /-- the UNKNOWN placeholder Merge writes for every partition of a failed part -/
-def placeholder (p : ReqPart) : ResPart := ⟨p.partition, -1, -1, -1, -1⟩
+def placeholder (p : ReqPart) : ResPart :=
+  ⟨p.partition, Gen.Offsets.placeholderError, Gen.Offsets.placeholderTimestamp, Gen.Offsets.placeholderOffset,
+   Gen.Offsets.placeholderLeaderEpoch⟩
 
 /-- the `timestamps[i]` index of Merge: last entry wins, as with a Go map -/
 def requestedTs (req : Request) (t : String) (p : Int) : Option Int :=
@@ -122,8 +126,8 @@ def merge (reqs : List Request) (rs : List Result) : Except String Response :=
 
 /-! ### Client.ListOffsets -/
 
-def firstOffset : Int := -2
-def lastOffset : Int := -1
+def firstOffset : Int := Gen.Offsets.firstOffset
+def lastOffset : Int := Gen.Offsets.lastOffset
 
 /-- kafka.PartitionOffsets; `offsets` is the map offset → timestamp (ms), `error` the Kafka error code (0 = nil) -/
 structure PartitionOffsets where
